@@ -71,6 +71,8 @@ def run(ctx):
              # single-cell datasets
              ('cf1d', dict(ny=1, nx=1, bounds=True)), ('cf2d', dict(ny=1, nx=1, bounds=True, holes='none', invalid=False)),
              ('shoc_standard', dict(nj=1, ni=1, holes='none', invalid=False)), ('ugrid', dict(w=1, h=1, invalid=False)),
+             ('shoc_standard', dict(nj=3, ni=4, holes='corner', invalid=False, plain=True)),
+             ('cf1d', dict(ny=3, nx=4, mixed_dtypes='lon_int')), ('cf1d', dict(ny=4, nx=3, bounds=True, bounds_on='lat')), ('cf1d', dict(ny=3, nx=5, bounds=True, bounds_on='lon')),
              # cells without coordinates AND a self-intersecting cell in one dataset
              ('cf2d', dict(ny=3, nx=4, holes='edge', bounds=True, invalid=True)),
              ('cf2d', dict(ny=4, nx=3, holes='corner', bounds=True, invalid=True)),
@@ -91,6 +93,27 @@ def run(ctx):
             warnings.simplefilter('ignore')
             i_polys = pm.impl_polygons(d.ds.ems)
         for n, (ip, mp) in enumerate(zip(i_polys, m_polys)):
+            if ip is not None and mp is not None and ip != mp:
+                # the cell the lookup works on is not the cell the coordinates describe: look a point up where the two differ
+                try:
+                    dif = shapely.Polygon(mp).symmetric_difference(shapely.Polygon(ip))
+                except Exception:     # noqa: BLE001
+                    continue
+                if dif.area <= 1e-12:
+                    continue
+                c = dif.representative_point()
+                hits = [k for k, q in enumerate(m_polys) if q is not None and shapely.Polygon(q).intersects(c)]
+                with warnings.catch_warnings():
+                    warnings.simplefilter('ignore')
+                    r = attempt(d.ds.ems.get_index_for_point, c)
+                got = None if r[0] != 'ok' or r[1] is None else int(r[1].linear_index)
+                ctx.count('cell_polygon_differs_from_coordinates')
+                if got != (hits[0] if hits else None):
+                    ctx.report('property', f'point {(c.x, c.y)}: cell {got} returned; by the coordinates of the dataset the lowest cell '
+                               f'meeting the point is {hits[0] if hits else None} (cell {n} is {mp}, the lookup uses {ip})',
+                               {'dataset': d.spec['label'], 'point': [c.x, c.y], 'cell': n})
+                    break
+                continue
             if (ip is None) == (mp is None):
                 continue
             ring = mp if mp is not None else ip
